@@ -28,6 +28,9 @@ RULE = ("Exhaustive: every Unicode scalar value except C0/C1 controls (thorough:
 ASSUMPTIONS = ["\\ansi without \\ansicpg is read as Windows-1252", "texts contain no conversion triggers (^ _ >= <= backslash braces), so conversion on/off is the identity"]
 
 SAFE_ASCII = "abcXYZ019 .,;:-+()[]/%#&*!?='\""
+# characters that text-handling code likes to treat specially (separators, invisible / combining / BOM / replacement)
+SPECIALS = ["\u2028", "\u2029", "\u00a0", "\u00ad", "\u2011", "\u200b", "\u200d", "\ufeff", "\ufffd", "e\u0301", "\u2126", "\u212b",
+            "\u3000", "\u2002", "x\u2028", "\u2029y", "\ufb01", "\u2122", "\u00b1", "\u0131"]
 
 
 def valid_cp(cp):
@@ -50,6 +53,7 @@ def enumerate_cases(tier):
     if tier == "thorough":
         for start in range(0, 0x110000, 1024):
             yield {"cps_range": [start, min(start + 1024, 0x110000)]}
+        yield from special_positions()
         return
     special = set(range(0x80, 0x300))
     for b in (0x7FF, 0x800, 0x7FFF, 0x8000, 0xD7FF, 0xE000, 0xFFFD, 0xFFFF, 0x10000, 0x10FFFF, 0x1F600, 0x20000, 0xE0001, 0xF0000, 0x100000):
@@ -58,6 +62,7 @@ def enumerate_cases(tier):
     cps = sorted(c for c in special if valid_cp(c))
     for i in range(0, len(cps), 512):
         yield {"cps": cps[i:i + 512]}
+    yield from special_positions()
 
 
 @st.composite
@@ -68,6 +73,7 @@ def _payload(draw, convert_safe=True):
         st.text(alphabet=st.characters(min_codepoint=0x100, max_codepoint=0xFFFF, blacklist_categories=("Cs",)), min_size=1, max_size=3),
         st.text(alphabet=st.characters(min_codepoint=0x10000, max_codepoint=0x10FFFF), min_size=1, max_size=2),
     )
+    part = st.one_of(part, st.sampled_from(SPECIALS), st.sampled_from(SPECIALS))
     s = "".join(draw(st.lists(part, min_size=1, max_size=4)))
     return "".join(ch for ch in s if valid_cp(ord(ch)))
 
@@ -108,6 +114,25 @@ def _positions(draw):
     if draw(st.booleans()):
         rec["page_footer"] = {"text": ["@Q0" + p()], "text_convert": conv}
     return rec
+
+
+def special_positions():
+    """Every special character, at the start / middle / end of the text of every text-bearing position."""
+    for sp in SPECIALS:
+        for form in ("a%sb", "%sb", "a%s"):
+            t = form % sp
+            for conv in (True, False):
+                for fn_table in (True, False):
+                    cols = [{"name": "@N0" + t, "dtype": "str", "values": ["@G0:v0" + t, "@G0:v0" + t]},
+                            {"name": "@N1" + t, "dtype": "str", "values": ["r0c1 " + t, "r1c1 " + t]}]
+                    body = {"text_convert": conv, "page_by" if fn_table else "subline_by": [cols[0]["name"]]}
+                    if not fn_table:
+                        cols[0]["values"] = ["@B0:v0" + t] * 2
+                    yield {"kind": "table", "page": {"nrow": 40}, "sections": [{"df": {"cols": cols}, "body": body, "headers": "default"}],
+                           "title": {"text": ["@T0" + t], "text_convert": conv}, "subline": {"text": ["@U0" + t], "text_convert": conv},
+                           "footnote": {"text": ["@F0" + t, "@F1" + t], "as_table": fn_table, "text_convert": conv},
+                           "source": {"text": ["@S0" + t], "as_table": not fn_table, "text_convert": conv},
+                           "page_header": {"text": ["@P0" + t], "text_convert": conv}, "page_footer": {"text": ["@Q0" + t], "text_convert": conv}}
 
 
 def strategy(tier):
